@@ -73,17 +73,40 @@ impl<'a> UnusedLiteralVisitor<'a> {
             .map(|pos| pos + 1)
             .unwrap_or(0);
 
-        // Find the end of the line (including the newline if present)
+        // Find the end of the line (excluding the newline)
         let line_end = src[position.end_offset..]
             .find('\n')
-            .map(|pos| position.end_offset + pos + 1)
+            .map(|pos| position.end_offset + pos)
             .unwrap_or(src.len());
 
-        // Create a new position spanning the entire line
+        let before = &src[line_start..position.start_offset];
+        let after = &src[position.end_offset..line_end];
+
+        if !before.trim().is_empty() || !after.trim().is_empty() {
+            // Other code shares this line, so only remove the literal
+            // itself, along with the whitespace that follows it.
+            let following_ws = after.len() - after.trim_start().len();
+
+            let mut literal_position = position.clone();
+            literal_position.end_offset += following_ws;
+            literal_position.end_column += following_ws;
+            return literal_position;
+        }
+
+        // The literal is alone on its line(s): remove the entire line,
+        // including the newline if present.
         let mut line_position = position.clone();
         line_position.start_offset = line_start;
-        line_position.end_offset = line_end;
         line_position.column = 0;
+        if line_end < src.len() {
+            line_position.end_offset = line_end + 1;
+            line_position.end_line_number = position.end_line_number + 1;
+            line_position.end_column = 0;
+        } else {
+            let end_line_start = src[..line_end].rfind('\n').map(|pos| pos + 1).unwrap_or(0);
+            line_position.end_offset = line_end;
+            line_position.end_column = line_end - end_line_start;
+        }
 
         line_position
     }
